@@ -366,6 +366,41 @@ def run_tcp_stall(ctx, rng, base_id, timeout_s=2.0, stall_s=3.0, others=4):
     return events
 
 
+def run_ui_heartbeat_mix(m, rec, rng, base_id, rounds=3, others=4):
+    """uiHeartbeat (leaves the signer, talks to the UI, comes back: exits, link drops, reconnections) with other
+    clients already queued behind it: whatever the command still has to do on the device belongs to its own
+    request and is over before the next one starts."""
+    from ..transport import install
+    install(m.world)        # this scenario reconnects: getDongle must hand out this manager's device
+    allr = {}
+    m.device.exchange_delay = lambda: time.sleep(0.004)
+
+    def client(rid, kind, req, st, delay):
+        time.sleep(delay)
+        try:
+            s = socket.create_connection(m.addr, timeout=10)
+            s.sendall(json.dumps(req).encode() + b"\n")
+            reply = read_reply(s, 60)
+        except OSError:
+            reply = None
+        rec.emit({"k": "got", "r": rid, "t": 0, "m": reply_owner(rid, kind, st, reply, m.device, allr)})
+    for k in range(rounds):
+        ths = []
+        for i in range(others + 1):
+            rid = base_id + 100 * k + i + 1
+            kind = "uiHeartbeat" if i == 0 else rng.choice(["blockchainState", "signerHeartbeat", "sign_hash", "getPubKey"])
+            req, st = make_request(rid, kind, rng)
+            allr[rid] = (kind, st)
+            ths.append(threading.Thread(target=client, args=(rid, kind, req, st, 0.0 if i == 0 else 0.01 + 0.004 * i)))
+        for t in ths:
+            t.start()
+        for t in ths:
+            t.join(90)
+        time.sleep(0.15)      # anything still running on its own after the replies shows up before the next round
+    m.device.exchange_delay = None
+    return rec.take()
+
+
 def run_shutdown_with_backlog(ctx, base_id, others=5):
     """A request ends in a manager shutdown (the device answers a status word outside every known range) while
     other clients are already connected and waiting. Whatever happens to them - the unchanged manager simply
@@ -507,6 +542,10 @@ def run(ctx):
         traces.append({"id": tid, "ev": run_tcp_stall(ctx, ctx.rng, 970000)})
         info[tid] = {"scenario": "unpatched TCP transport; one exchange slower than the dongle timeout, 4 clients behind it"}
         res.coverage["tcp_transport_stall_scenarios"] = 1
+        tid = len(traces) + 1
+        traces.append({"id": tid, "ev": run_ui_heartbeat_mix(m, rec, random.Random("uihb:%d" % ctx.seed), 990000)})
+        info[tid] = {"scenario": "uiHeartbeat with 4 clients queued behind it, 3 rounds"}
+        res.coverage["ui_heartbeat_mix_rounds"] = 3
         ev_sd, fired, nshut = run_shutdown_with_backlog(ctx, 980000)
         if not fired:
             raise core.MachineryError("shutdown scenario: the poisoned exchange was never reached")
